@@ -517,10 +517,6 @@ func (vc *VC) enterLoop(fr *Frame, li *loopInfo, phiIn map[*ssa.Phi]*Val) {
 	}
 	saveDefers := fr.defers
 	saveRets := fr.rets
-	saveHeld := map[string]bool{}
-	for k, v := range vc.held {
-		saveHeld[k] = v
-	}
 	for phi := range phiIn {
 		fr.vals[phi] = &Val{T: vc.fresh("disc_"+phi.Name(), vc.sortOf(phi.Type())), Ty: phi.Type()}
 	}
@@ -542,7 +538,6 @@ func (vc *VC) enterLoop(fr *Frame, li *loopInfo, phiIn map[*ssa.Phi]*Val) {
 	vc.discovery--
 	vc.rollback(cp)
 	fr.vals, fr.ends, fr.defers, fr.rets = saveVals, saveEnds, saveDefers, saveRets
-	vc.held = saveHeld
 	vc.st = headerState
 	// 3. havoc
 	hreach := vc.fresh(fmt.Sprintf("reach_%s_loop%d", sanitize(fr.fn.Name()), li.ordinal), "Bool")
@@ -1094,6 +1089,11 @@ func (vc *VC) unop(fr *Frame, in *ssa.UnOp, pos token.Pos) *Val {
 		// give the loaded value a name to keep terms small, and constrain it
 		nv := &Val{T: vc.define("ld_"+in.Name(), vc.sortOf(in.Type()), v.T), Ty: in.Type(), PRoot: x.PRoot, PFields: x.PFields}
 		vc.assume(vc.rangeFact(nv.T, nv.Ty))
+		if g, ok := in.X.(*ssa.Global); ok && strings.HasPrefix(g.Name(), "Err") && vc.sortOf(in.Type()) == "Iface" {
+			// error sentinels (package-level variables named Err*) are non-nil
+			vc.assume(fmt.Sprintf("(not (= (i_tag %s) 0))", nv.T))
+			vc.used.Assumes["package-level error sentinels (variables named Err*) are non-nil"] = true
+		}
 		return nv
 	case token.NOT:
 		return &Val{T: "(not " + x.T + ")", Ty: in.Type()}
